@@ -1,7 +1,7 @@
 //! C17: split-DWARF packages — a unit fetched from a package reads exactly like the unit in
 //! its standalone object.
 
-use super::super::{endian, guarded, Rd};
+use super::super::{ceq, cfail, endian, guarded, Rd};
 use crate::asm::Enc;
 use crate::gen::index::*;
 use crate::model::index::*;
@@ -410,7 +410,7 @@ pub fn pkg_stream(ctx: &mut Ctx) {
             let dwp = match dwp {
                 Ok(d) => d,
                 Err(err) => {
-                    ctx.fail("pkg.load", &format!("DwarfPackage::load failed on a well-formed package: {err:?}"), &input);
+                    cfail(ctx, "pkg.load", &format!("DwarfPackage::load failed on a well-formed package: {err:?}"), &input);
                     return;
                 }
             };
@@ -444,29 +444,29 @@ pub fn pkg_stream(ctx: &mut Ctx) {
                     let sub = match found {
                         Ok(Some(d)) => d,
                         Ok(None) => {
-                            ctx.fail(&format!("pkg.find_{tagk}.none"), &format!("unit {:#x} of object {oi} not found in the package", um.id), &input);
+                            cfail(ctx, &format!("pkg.find_{tagk}.none"), &format!("unit {:#x} of object {oi} not found in the package", um.id), &input);
                             continue;
                         }
                         Err(err) => {
-                            ctx.fail(&format!("pkg.find_{tagk}.err"), &format!("unit {:#x} of object {oi}: {err:?}", um.id), &input);
+                            cfail(ctx, &format!("pkg.find_{tagk}.err"), &format!("unit {:#x} of object {oi}: {err:?}", um.id), &input);
                             continue;
                         }
                     };
-                    ctx.check_eq(&format!("pkg.find_{tagk}.file_type"), &true, &(sub.file_type == gimli::DwarfFileType::Dwo), &input);
+                    ceq(ctx, &format!("pkg.find_{tagk}.file_type"), &true, &(sub.file_type == gimli::DwarfFileType::Dwo), &input);
                     let got = dump_all(&sub, addr_base);
                     if got.len() != 1 {
-                        ctx.check_eq(&format!("pkg.find_{tagk}.unit_count"), &1usize, &got.len(), &input);
+                        ceq(ctx, &format!("pkg.find_{tagk}.unit_count"), &1usize, &got.len(), &input);
                         continue;
                     }
                     let g = &got[0];
                     // the standalone unit with the same id
                     let Some(a) = alone_units.iter().find(|u| u.id == Some(um.id)) else {
-                        ctx.fail("pkg.standalone.missing", &format!("unit {:#x} not found in its standalone object {oi}", um.id), &input);
+                        cfail(ctx, "pkg.standalone.missing", &format!("unit {:#x} not found in its standalone object {oi}", um.id), &input);
                         continue;
                     };
                     if a.lines != g.lines {
                         let first = a.lines.iter().zip(g.lines.iter()).position(|(x, y)| x != y).unwrap_or(a.lines.len().min(g.lines.len()));
-                        ctx.check_eq(
+                        ceq(ctx, 
                             &format!("pkg.find_{tagk}.dump"),
                             &a.lines.get(first),
                             &g.lines.get(first),
@@ -476,10 +476,10 @@ pub fn pkg_stream(ctx: &mut Ctx) {
                     // generator facts: structure, names, addresses
                     let want: Vec<Fact> = um.dies.iter().map(|d| Fact { depth: d.depth as isize, tag: d.tag, name: d.name.clone(), low_pc: d.low_pc }).collect();
                     if want != g.facts {
-                        ctx.check_eq(&format!("pkg.find_{tagk}.model"), &want, &g.facts, &|| json!({"unit": format!("{:#x}", um.id), "object": oi, "package": g.lines, "pkg": input()}));
+                        ceq(ctx, &format!("pkg.find_{tagk}.model"), &want, &g.facts, &|| json!({"unit": format!("{:#x}", um.id), "object": oi, "package": g.lines, "pkg": input()}));
                     }
                     if want != a.facts {
-                        ctx.check_eq("pkg.standalone.model", &want, &a.facts, &|| json!({"unit": format!("{:#x}", um.id), "object": oi, "standalone": a.lines, "pkg": input()}));
+                        ceq(ctx, "pkg.standalone.model", &want, &a.facts, &|| json!({"unit": format!("{:#x}", um.id), "object": oi, "standalone": a.lines, "pkg": input()}));
                     }
                     if g.resolved.errors > 0 {
                         ctx.obs("pkg.resolve_errors");
@@ -494,7 +494,7 @@ pub fn pkg_stream(ctx: &mut Ctx) {
                         let mut gm = vec![];
                         let nm = dump_macros(&sub, &mut gm);
                         ctx.obs_n("pkg.macro", nm);
-                        ctx.check_eq("pkg.find_cu.macros", &alone_macros, &gm, &input);
+                        ceq(ctx, "pkg.find_cu.macros", &alone_macros, &gm, &input);
                     }
                     // the row-number path gives the same unit
                     let idxm = if um.is_type { &p.tu_index } else { &p.cu_index };
@@ -504,14 +504,14 @@ pub fn pkg_stream(ctx: &mut Ctx) {
                             Ok(d2) => {
                                 let got2 = dump_all(&d2, addr_base);
                                 let l2: Vec<&Vec<String>> = got2.iter().map(|u| &u.lines).collect();
-                                ctx.check_eq(&format!("pkg.{tagk}_sections.dump"), &vec![&g.lines], &l2, &input);
+                                ceq(ctx, &format!("pkg.{tagk}_sections.dump"), &vec![&g.lines], &l2, &input);
                                 // sections that never come from the package
-                                ctx.check_eq("pkg.sections.debug_addr", &p.parent_addr, &d2.debug_addr.reader().slice().to_vec(), &input);
-                                ctx.check_eq("pkg.sections.debug_ranges", &p.parent_ranges, &d2.ranges.debug_ranges().reader().slice().to_vec(), &input);
-                                ctx.check_eq("pkg.sections.debug_str", &p.str, &d2.debug_str.reader().slice().to_vec(), &input);
-                                ctx.check_eq("pkg.sections.debug_line_str", &0usize, &d2.debug_line_str.reader().len(), &input);
-                                ctx.check_eq("pkg.sections.debug_aranges", &0usize, &d2.debug_aranges.reader().len(), &input);
-                                ctx.check_eq("pkg.sections.debug_names", &0usize, &d2.debug_names.reader().len(), &input);
+                                ceq(ctx, "pkg.sections.debug_addr", &p.parent_addr, &d2.debug_addr.reader().slice().to_vec(), &input);
+                                ceq(ctx, "pkg.sections.debug_ranges", &p.parent_ranges, &d2.ranges.debug_ranges().reader().slice().to_vec(), &input);
+                                ceq(ctx, "pkg.sections.debug_str", &p.str, &d2.debug_str.reader().slice().to_vec(), &input);
+                                ceq(ctx, "pkg.sections.debug_line_str", &0usize, &d2.debug_line_str.reader().len(), &input);
+                                ceq(ctx, "pkg.sections.debug_aranges", &0usize, &d2.debug_aranges.reader().len(), &input);
+                                ceq(ctx, "pkg.sections.debug_names", &0usize, &d2.debug_names.reader().len(), &input);
                                 // every contribution is exactly the row's (offset, size) window
                                 if let Some(cs) = idxm.contributions(row) {
                                     for (k, off, size) in cs {
@@ -529,12 +529,12 @@ pub fn pkg_stream(ctx: &mut Ctx) {
                                             SectKind::Loc | SectKind::LocLists => want.clone(),
                                         };
                                         if want != got {
-                                            ctx.check_eq(&format!("pkg.sections.window.{}", k.name()), &hex(&want), &hex(&got), &input);
+                                            ceq(ctx, &format!("pkg.sections.window.{}", k.name()), &hex(&want), &hex(&got), &input);
                                         }
                                     }
                                 }
                             }
-                            Err(err) => ctx.fail(&format!("pkg.{tagk}_sections.err"), &format!("row {row}: {err:?}"), &input),
+                            Err(err) => cfail(ctx, &format!("pkg.{tagk}_sections.err"), &format!("row {row}: {err:?}"), &input),
                         }
                     }
                 }
@@ -549,7 +549,7 @@ pub fn pkg_stream(ctx: &mut Ctx) {
                 ctx.obs("pkg.absent");
                 match dwp.find_cu(gimli::DwoId(id), &parent) {
                     Ok(None) => {}
-                    other => ctx.fail("pkg.find_cu.absent", &format!("absent id {id:#x}: {:?}", other.map(|o| o.is_some())), &input),
+                    other => cfail(ctx, "pkg.find_cu.absent", &format!("absent id {id:#x}: {:?}", other.map(|o| o.is_some())), &input),
                 }
             }
             let mut absent = gen_absent(&mut r, &p.tu_index, 6);
@@ -561,15 +561,15 @@ pub fn pkg_stream(ctx: &mut Ctx) {
                 ctx.obs("pkg.absent");
                 match dwp.find_tu(gimli::DebugTypeSignature(id), &parent) {
                     Ok(None) => {}
-                    other => ctx.fail("pkg.find_tu.absent", &format!("absent signature {id:#x}: {:?}", other.map(|o| o.is_some())), &input),
+                    other => cfail(ctx, "pkg.find_tu.absent", &format!("absent signature {id:#x}: {:?}", other.map(|o| o.is_some())), &input),
                 }
             }
             // rows that do not exist
             for row in [0u32, p.cu_index.rows.len() as u32 + 1] {
-                ctx.check_eq("pkg.cu_sections.invalid_row", &true, &dwp.cu_sections(row, &parent).is_err(), &input);
+                ceq(ctx, "pkg.cu_sections.invalid_row", &true, &dwp.cu_sections(row, &parent).is_err(), &input);
             }
             for row in [0u32, p.tu_index.rows.len() as u32 + 1] {
-                ctx.check_eq("pkg.tu_sections.invalid_row", &true, &dwp.tu_sections(row, &parent).is_err(), &input);
+                ceq(ctx, "pkg.tu_sections.invalid_row", &true, &dwp.tu_sections(row, &parent).is_err(), &input);
             }
         });
         let mut dg = crate::rt::fnv(&cu_b);
